@@ -59,6 +59,31 @@ Lemma tick_spec_cons max_dt h out r rs :
   tick_spec max_dt h out (r :: rs) = obind (absorb max_dt h r) (fun h1 => tick_spec max_dt h1 out rs).
 Proof. unfold tick_spec; cbn [ofold obind]. destruct (absorb max_dt h r); reflexivity. Qed.
 
+Lemma ofold_app {A B : Type} (f : A -> B -> option A) l1 l2 a :
+  ofold f (l1 ++ l2) a = obind (ofold f l1 a) (ofold f l2).
+Proof.
+  revert a; induction l1 as [|x l IH]; intro a; [reflexivity|].
+  cbn [app ofold obind]. destruct (f a x) as [a'|]; cbn [obind]; [apply IH|reflexivity].
+Qed.
+
+(** readings handed over in two batches: what is held after the first batch is all that the second sees *)
+Lemma tick_spec_app max_dt h out rs1 rs2 :
+  tick_spec max_dt h out (rs1 ++ rs2) =
+  obind (ofold (absorb max_dt) rs1 h) (fun h1 => tick_spec max_dt h1 out rs2).
+Proof. unfold tick_spec. rewrite ofold_app. destruct (ofold (absorb max_dt) rs1 h); reflexivity. Qed.
+
+(** two ticks equal one tick over the concatenated readings, whatever the first tick's output time was:
+    reporting an estimate at an output time leaves no trace in what is held *)
+Lemma tick_split max_dt h out1 out rs1 rs2 h1 e1 :
+  tick_spec max_dt h out1 rs1 = Some (h1, e1) ->
+  tick_spec max_dt h1 out rs2 = tick_spec max_dt h out (rs1 ++ rs2).
+Proof.
+  rewrite tick_spec_app. unfold tick_spec at 1.
+  destruct (ofold (absorb max_dt) rs1 h) as [h'|]; cbn [obind]; [|discriminate].
+  destruct (propagate max_dt (fst h') (snd h') out1) as [e|]; cbn [option_map]; [|discriminate].
+  intro E. injection E as -> _. reflexivity.
+Qed.
+
 End Filter.
 End Spec.
 
